@@ -250,7 +250,7 @@ def rand_timing(rng, mode='any'):
     if rng.random() < 0.05:
         # a timing field whose text is not a number (the payload is vendor data: "0:45", an empty tag, a unit)
         k_ = rng.choice([k for k in ('duration', 'text_time', 'media_time') if k in kw] or ['text_time'])
-        kw[k_] = rng.choice(['0:45', '', '45s', 'soon', '00:00:45'])
+        kw[k_] = rng.choice(['0:45', '', '45s', 'soon', '00:00:45', '--:--', '00:01:30;12', '1:30:', ':', '1:2:3:4'])
     if rng.random() < 0.12:
         # all three fields, StoryDuration disagreeing with TextTime + MediaTime (it takes precedence wherever it stands)
         kw['duration'], kw['text_time'], kw['media_time'] = q(), q(), q()
@@ -299,7 +299,16 @@ def rand_item(rng, item_id, pool, rich=True, tag='item'):
         else:
             sc.append(E('duration', '3'))        # a note command without any <text>
         wrap = E('x', None, sc) if rng.random() < 0.5 else sc
-        extra.append(E('mosExternalMetadata', None, E('mosSchema', 'http://n'), E('mosPayload', None, wrap)))
+        payload = E('mosPayload', None, wrap)
+        if rng.random() < 0.35:
+            # further commands after the first one: another note (with or without a text), a cue - the note of an
+            # item is the text of its FIRST note command
+            for _ in range(rng.randint(1, 2)):
+                sc2 = E('studioCommand', None, attrib={'type': rng.choice(['note', 'note', 'cue'])})
+                if rng.random() < 0.5:
+                    sc2.append(E('text', rng.choice(pool + [None])))
+                payload.append(sc2)
+        extra.append(E('mosExternalMetadata', None, E('mosSchema', 'http://n'), payload))
     slug = rng.choice(pool) if rng.random() < 0.8 else None
     return B.item(item_id, slug, extra, tag=tag)
 
